@@ -115,9 +115,11 @@ func runC13(c *Ctx, r *Report, tier string) {
 	}
 	// the unquoted part is the text after the FIRST colon
 	nUq := 0
-	for _, s := range c.instrs(ip, c.isCallTo("strconv.Unquote")) {
+	for _, ci := range c.instrsCtx(ip, c.isCallTo("strconv.Unquote")) {
+		s := ci.In
 		nUq++
-		t := c.term(s.(*ssa.Call).Call.Args[0])
+		var t string
+		c.within(ci.Frames, func() { t = c.term(s.(*ssa.Call).Call.Args[0]) })
 		r.Check(t == `after(iniValue.Value(new:iniValue), ":")`, "FUNNEL", in_, "map value part: text after the first colon", c.ipos(s), "Unquote(after(value, \":\")): as convert splits on the command line", "the quoted map value is taken from "+trunc(t, 100))
 	}
 	r.Check(nUq == 1, "FUNNEL", in_, "one unquote of a map value", c.pos(ip.Pos()), "one", fmt.Sprintf("%d", nUq))
